@@ -916,7 +916,7 @@ def C09(V, tier):
 def C16(V, tier):
     op_replay(V, workdir("C16r"), tier, "C16", ["reorder"])
     rng = random.Random(seed() + 16)
-    progs = gen.ordered_programs(rng, 24 if tier == "quick" else 300, big=(tier != "quick"))
+    progs = gen.ordered_programs(rng, 24 if tier == "quick" else 160, big=(tier != "quick"))
     matrix = [({"mode": "local", "par": 1}, b) for b in ("default", "single", "fixed:1", "fixed:3", "fixed:1024", "adaptive:2:500")]
     matrix += [({"mode": "local", "par": 3}, "fixed:2"), ({"mode": "remote", "hosts": [1, 2]}, "default")]
     _focused(V, tier, "C16", progs, checks=("result", "link"), matrix=matrix, perturb_us=0)
@@ -1265,12 +1265,14 @@ def latency_jobs(tier, rng):
     pars = [1, 2, 3]
     combos = [(m, d, p) for m in modes for d in depths for p in pars]
     rng.shuffle(combos)
-    n = 10 if tier == "quick" else 40
+    n = 10 if tier == "quick" else 150
     # make sure every mode occurs
     chosen = []
     for m in modes:
         chosen.append(next(c for c in combos if c[0] == m))
     chosen += [c for c in combos if c not in chosen][: max(0, n - len(chosen))]
+    while len(chosen) < n:          # thorough: the same (mode, depth, parallelism) again with other feed patterns
+        chosen.append(rng.choice(combos))
     # adaptive batching, ONE element at a time in quick succession (below the max delay, so no age flush at
     # enqueue), through a single batcher (forward boundaries or parallelism 1), after the source went idle
     forced = [("adaptive:1000:20000", 1, 1, "single_path"), ("adaptive:64:20000", 2, 3, "single_path"),
@@ -1288,6 +1290,8 @@ def latency_jobs(tier, rng):
         nodes.append({"id": "k", "op": "sink", "kind": "collect_channel", "in": [cur]})
         k = 1 if shape == "single_path" else rng.choice([1, 2, 5])
         pauses = [0, 6, 7, 9, 40, 5] if shape == "single_path" else rng.choice([[0, 6], [30, 5, 9], [0, 40, 7], [0, 5, 120], [60, 8]])
+        if tier != "quick" and i >= 18 and shape != "single_path":
+            pauses = [rng.choice([0, 3, 5, 6, 7, 9, 15, 30, 40, 60, 120]) for _ in range(rng.randint(2, 6))]
         feed = []
         t = 0
         v = 0
